@@ -2,7 +2,10 @@
 
 two-process and same-process wrappers around the REAL std.SyncFlag / std.Mailbox for each delay setting;
 per configuration a kernel-checked theorem: for ALL input sequences (every relative timing of producer and
-consumer, every payload) the hand-over monitor (Models/StdSpecs.v chan_monitor) never flags."""
+consumer, every payload) the hand-over monitor (Models/StdSpecs.v chan_monitor) never flags; and, for the
+two-context wrappers, a second one: the emitted VHDL has the trace of the AS-CODED model of these delays
+(Models/Handover.v ho_rstep: toggle registers, delay lines of tx_delay / rx_delay booleans, data register), about
+which Models/HandoverProofs.v proves the hand-over properties and the monitor for ALL delays (C15_*_all_delays)."""
 from __future__ import annotations
 import common
 import explore as X
@@ -163,6 +166,7 @@ def run(ck: common.Check, replay=None):
     metas.append({"component": "SyncFlag", "form": "same context", "tx_delay": 0, "rx_delay": 0, "payload": False})
     res = X.compile_designs(ck, designs)
     cases = []
+    model_cases = []
     for dsg, meta, r in zip(designs, metas, res):
         if not r["ok"]:
             ck.obligation(False)
@@ -178,11 +182,54 @@ def run(ck: common.Check, replay=None):
         cases.append(X.Case(dsg["name"], r["vhdl"], step=mon, init="[0%Z; 0%Z; 0%Z; 0%Z]", monitor=True,
                             imports="From Cohdl Require Import Models.StdSpecs.", meta=meta, alphabet_overrides=overrides))
         ck.hist("components", meta["component"] + "/" + meta["form"])
-    X.run_cases(ck, cases, "hand-over monitor flags on an input sequence (lost, duplicated, modified or unsolicited event)",
-                key_of=lambda c: {"config": c.name})
+        if meta["form"].startswith("two contexts"):
+            # second theorem for the same VHDL: the as-coded model of these delays (Models/Handover.v), about which
+            # Models/HandoverProofs.v proves exactly-once, the exact response bounds and the monitor for ALL delays
+            guarded = "false" if "unguarded" in meta["form"] else "true"
+            payload = "true" if meta["payload"] else "false"
+            w = 2 if meta["payload"] else 1
+            mmeta = dict(meta, reference="as-coded model ho_rstep (Models/Handover.v)")
+            del mmeta["response_bound"]
+            model_cases.append(X.Case(dsg["name"] + "_model", r["vhdl"],
+                                      step=f"ho_rstep {meta['tx_delay']} {guarded} {payload} {w}%N",
+                                      init=f"ho_init {meta['tx_delay']} {meta['rx_delay']}",
+                                      imports="From Cohdl Require Import Models.Handover.", meta=mmeta,
+                                      alphabet_overrides=overrides))
+    # the as-coded-model cases run in the same parallel batch, after the monitor cases.  The property is decided on
+    # the monitor: a difference between the VHDL and the as-coded model while the monitor theorem of the same
+    # configuration holds means Models/Handover.v no longer describes the code (the all-delay theorems no longer
+    # speak about it) and is reported as a correspondence that no longer checks, with the distinguishing input
+    # sequence in the replay; if the monitor theorem fails too it is a counterexample like any other.
+    failed = set()
+    orig_violation = ck.violation
+
+    def violation(key, what, replay, no_input=False):
+        cfg = key.get("config", "")
+        if cfg.endswith("_model"):
+            what = "emitted VHDL and the as-coded model (Models/Handover.v) differ: " + what
+            if cfg[:-6] not in failed:
+                what += " [the monitor theorem of this configuration holds: the model is out of date]"
+                no_input = True
+        else:
+            failed.add(cfg)
+        return orig_violation(key, what, replay, no_input)
+    ck.violation = violation
+    try:
+        X.run_cases(ck, cases + model_cases,
+                    "hand-over monitor flags on an input sequence (lost, duplicated, modified or unsolicited event)",
+                    key_of=lambda c: {"config": c.name})
+    finally:
+        ck.violation = orig_violation
+    ck.cov["as_coded_model_cases"] = len(model_cases)
+    ck.cov["all_delays"] = ("Models/HandoverProofs.v: for every tx_delay, rx_delay >= 0, every payload and every input sequence the "
+                            "as-coded model hands over exactly once, in order, unmodified; a send is visible to the consumer after "
+                            "exactly tx_delay clocks, a receive to the producer after exactly rx_delay clocks; chan_monitor K never "
+                            "flags for any K >= max(tx_delay, rx_delay); the '*_model' cases tie the model to the emitted VHDL per "
+                            "configuration (C15_code_satisfies_monitor_all_delays, C15_code_exactly_once_all_delays)")
     ck.cov["rule"] = ("one case per (component, usage form, tx_delay, rx_delay); each case is a theorem over all input "
                       "sequences (all relative timings, all payloads); all are non-trivial")
     ck.trusted += ["fail-closed VHDL reader", "Vhdl.Sem (modelled VHDL-93 simulation cycle)",
                    "chan_monitor (Models/StdSpecs.v) as the rendering of 'exactly once, in order, unmodified' + bounded response"]
     ck.assumptions += ["producer and consumer contexts share one clock (relative timing = per-clock send/want choices)",
-                       "delay parameters enumerated up to the listed bound; payload width 2"]
+                       "the tie of the as-coded model to the emitted VHDL is enumerated over the listed delay pairs (the theorems about "
+                       "the model hold for all delays); coroutine and same-context forms: delays enumerated, payload width 2"]
